@@ -283,7 +283,7 @@ def r2(ctx, F, rule, sfx):
     if len(ext) == 1:
         ch, src = stream_chain(ext[0].fargs[1])
         heap_field = heap_elem_type(F)[1]['name']
-        ok = [n for n, _ in ch] in (['map', 'iter'], ['filter_map', 'iter']) and repr(src) == 'children' and repr(ext[0].fargs[0]).endswith('it.' + heap_field)
+        ok = [n for n, _ in ch if n != 'rev'] in (['map', 'iter'], ['filter_map', 'iter']) and repr(src) == 'children' and repr(ext[0].fargs[0]).endswith('it.' + heap_field)     # (the heap orders the entries, not the insertion)
     ctx.check(rule, 'one-entry-per-child' + sfx, ok, 'extend calls: %d' % len(ext), 'self.nodes.extend(children.iter().map(entry))', where(eh), key_extra='extend')
     # the search step
     ip = I.Interp(F, no_inline=[eh['path']])
